@@ -551,6 +551,38 @@ pub fn run(sh: &mut Shard) {
             progs.push((format!("first-statement-{k}-fb"), format!("FUNCTION_BLOCK B\nVAR k : DINT; n : DINT; END_VAR\n{first}\nEND_FUNCTION_BLOCK\nPROGRAM Main\nVAR b : B; END_VAR\nb();\nEND_PROGRAM\n")));
             progs.push((format!("first-statement-{k}-function"), format!("FUNCTION F : DINT\nVAR k : DINT; n : DINT; END_VAR\n{first}\nF := n;\nEND_FUNCTION\nPROGRAM Main\nVAR r : DINT; END_VAR\nr := F();\nEND_PROGRAM\n")));
         }
+        // the *last* statement of a POU is a loop / branch with 1-3 body statements whose condition has one of the shapes the
+        // encoder treats differently (plain comparison, array element with a variable index, struct field, FB output,
+        // function call, string comparison): code after a construct the encoder has to give up on and roll back
+        for (ci, cond) in ["k > DINT#3", "arr[i] = DINT#0", "arr[i] > arr[k]", "st.f > DINT#3", "fbi.q > DINT#3", "F2(k) > DINT#3", "s = 'x'", "NOT flag", "arr[F2(i)] = DINT#0"].iter().enumerate() {
+            for nbody in 1..=3usize {
+                let body: String = ["  k := k + DINT#1;\n", "  i := (i + DINT#1) MOD DINT#4;\n", "  arr[i] := k;\n"][..nbody].concat();
+                for (si, stmt) in [
+                    format!("REPEAT\n{body}UNTIL {cond} OR k > DINT#8\nEND_REPEAT;"),
+                    format!("REPEAT\n{body}UNTIL {cond}\nEND_REPEAT;"),
+                    format!("WHILE {cond} AND k < DINT#8 DO\n{body}END_WHILE;"),
+                    format!("WHILE {cond} DO\n{body}  EXIT;\nEND_WHILE;"),
+                    format!("IF {cond} THEN\n{body}ELSE\n{body}END_IF;"),
+                    format!("IF flag THEN\n{body}ELSIF {cond} THEN\n{body}END_IF;"),
+                    format!("FOR n := DINT#0 TO DINT#2 DO\n  IF {cond} THEN\n  {body}  END_IF;\nEND_FOR;"),
+                ]
+                .iter()
+                .enumerate()
+                {
+                    let decl = "VAR k : DINT; n : DINT; i : DINT; arr : ARRAY[0..3] OF DINT; st : S1; fbi : B1; s : STRING; flag : BOOL; END_VAR";
+                    let types = "TYPE S1 : STRUCT f : DINT; END_STRUCT END_TYPE\nFUNCTION_BLOCK B1\nVAR_OUTPUT q : DINT; END_VAR\nq := q + DINT#1;\nEND_FUNCTION_BLOCK\nFUNCTION F2 : DINT\nVAR_INPUT a : DINT; END_VAR\nF2 := a MOD DINT#4;\nEND_FUNCTION\n";
+                    progs.push((format!("last-statement-c{ci}-b{nbody}-s{si}-program"), format!("{types}PROGRAM Main\n{decl}\nn := n + DINT#1;\n{stmt}\nEND_PROGRAM\n")));
+                    if nbody == 2 {
+                        progs.push((format!("last-statement-c{ci}-b{nbody}-s{si}-fb"), format!("{types}FUNCTION_BLOCK W\n{decl}\nn := n + DINT#1;\n{stmt}\nEND_FUNCTION_BLOCK\nPROGRAM Main\nVAR w : W; END_VAR\nw();\nEND_PROGRAM\n")));
+                        if ci != 4 {
+                            // no FB instances in functions
+                            let fdecl = decl.replace(" fbi : B1;", "");
+                            progs.push((format!("last-statement-c{ci}-b{nbody}-s{si}-function"), format!("{types}FUNCTION G : DINT\n{fdecl}\nG := n;\n{stmt}\nEND_FUNCTION\nPROGRAM Main\nVAR r : DINT; END_VAR\nr := G();\nEND_PROGRAM\n")));
+                        }
+                    }
+                }
+            }
+        }
         for (path, text) in crate::engines::c12::corpus_files() {
             if text.len() < 20_000 {
                 progs.push((path, text));
